@@ -80,7 +80,8 @@ C = {
          "ColangError carrying the exception's type name and message, and the flow is marked aborted; and the retry loop of "
          "RuntimeV2_x.process_events around run_to_completion (block contract): no Exception that run_to_completion raises ever leaves the loop, every "
          "failure is answered by handing run_to_completion one freshly built ColangError event (type name + text; checked at the call), and the loop is "
-         "left only after a call that returned",
+         "left only after a call that returned; the try statement of _advance_head_front catches EVERY Exception subclass its body can raise "
+         "(coverage obligation over an abstracted body)",
          "termination of process_events (step bound + hard timeout) and fault containment for an erroneous expression at every statement position with "
          "unrelated reactor flows",
          "A-POS: when the try body raises the head stands on an element of its flow (precondition of the block, not verified); everything outside the "
@@ -142,8 +143,12 @@ C = {
          "generator, map-like store; coherence fails when two models share a store: known finding), the single-text EmbeddingsCache.get(text) / "
          "set(text, value) are the map abstraction itself, the decorated _get_embeddings returns the model's vectors in order; request batching, concurrency and progress are bounded only"),
  "C20": ("every path the real _get_rails hands to RailsConfig.from_path (ghost trace) is the configured root or lies lexically inside it with no '..' component, on "
-         "normal and exceptional exits, for every list of config ids", "thread-history clauses of chat_completion (stored thread ++ new messages ++ reply; threads never mix)",
-         "os.path.abspath/join/normpath/commonprefix axioms (A-*), from_path/LLMRails do not modify the server globals, root != '/'; symlinks outside a lexical contract"),
+         "normal and exceptional exits, for every list of config ids; the thread steps of chat_completion (block contracts): with a thread id (>= 16 characters) the "
+         "store is read exactly once under 'thread-' + id and the turn's messages are the loaded thread followed by the request's messages in order; "
+         "afterwards the store is written exactly once, under the same key, with the JSON text of that list plus the reply; without a thread id the "
+         "store is neither read nor written", "thread-history clauses of chat_completion (stored thread ++ new messages ++ reply; threads never mix)",
+         "os.path.abspath/join/normpath/commonprefix axioms (A-*), from_path/LLMRails do not modify the server globals, root != '/'; symlinks outside a lexical contract; DataStore.get / set and json.loads / dumps "
+         "are library code (assumed by frame, arguments recorded); the statements between the two thread blocks (generation) are bounded only"),
 }
 def has_native(i): return any(re.search(r"^def native_checks|^NATIVE\s*=", open(f).read(), re.M) for f in glob.glob(os.path.join(ROOT, "contracts", i + "_*.py")))
 def has_contract(i): return any(re.search(r"^contract\(", open(f).read(), re.M) and "verify=False" not in open(f).read() or len(re.findall(r"^contract\(", open(f).read(), re.M)) > open(f).read().count("verify=False") for f in glob.glob(os.path.join(ROOT, "contracts", i + "_*.py")) if re.search(r"^contract\(", open(f).read(), re.M))
